@@ -11,6 +11,10 @@
   `paths` is the Python dict keyed by `e.name` (`None` for every wildcard: a later wildcard
   *replaces* an earlier one; a later element replaces an earlier element of the same name) in
   insertion order.  No Mathlib import.
+
+  `Ctx.fx : Fixes` selects the variant of the algorithm: all `false` = the pinned code; each flag = one hunk of the
+  proposed repairs notes/fixes/C15-*.patch (together: C15-all-combined.patch).  The harness detects the variant of
+  the tree under test by replaying one witness per repair (harness/props/c15.py:detect_fixes).
 -/
 import XsVerif.Model.Particle
 import XsVerif.Model.Upa
